@@ -297,9 +297,78 @@ def qualify_part(ctx):
         ctx.compare("qualify-model-vs-suds", meta, real, ans)
 
 
+def consolidate_part(ctx):
+    """SchemaCollection.add on two schema nodes of one namespace against the Lean consolidation model: explicit
+    form attributes written, prefix table, and the form every local element is finally built with."""
+    import suds.options
+    from suds.sax.parser import Parser
+    from suds.xsd.schema import Schema, SchemaCollection
+    rng = random.Random("consolidate/%s" % ctx.seed)
+    reqs, metas = [], []
+    XS = "http://www.w3.org/2001/XMLSchema"
+
+    def node(form, prefixes, locals_):
+        decl = "".join(' xmlns:%s="%s"' % pu for pu in prefixes)
+        fattr = "" if form is None else ' elementFormDefault="%s"' % form
+        body = "".join('<xs:complexType name="T_%s"><xs:sequence><xs:element name="%s" type="xs:int"%s/></xs:sequence>'
+                       '</xs:complexType>' % (n, n, "" if f is None else ' form="%s"' % f) for n, f in locals_)
+        return '<xs:schema xmlns:xs="%s"%s targetNamespace="urn:c"%s>%s</xs:schema>' % (XS, decl, fattr, body)
+
+    class FakeWsdl:
+        pass
+    for i in range(ctx.pick(300, 5000)):
+        specs = []
+        for which in (0, 1):
+            form = rng.choice([None, "qualified", "unqualified"])
+            prefixes = [(p, rng.choice(["urn:c", "urn:d", "urn:e"])) for p in rng.sample(["p", "q", "r"], rng.randint(0, 3))]
+            locals_ = [("e%d%d" % (which, k), rng.choice([None, "qualified", "unqualified"]))
+                       for k in range(rng.randint(1, 3))]
+            specs.append((form, prefixes, locals_))
+        options = suds.options.Options()
+        coll = SchemaCollection(FakeWsdl())
+        schemas = []
+        for form, prefixes, locals_ in specs:
+            root = Parser().parse(string=node(form, prefixes, locals_).encode()).root()
+            sch = Schema(root, "urn:x", options, {}, coll)
+            coll.add(sch)
+            schemas.append(sch)
+        first = coll.children[0]
+        first.build()
+        real_prefixes = sorted([k, v] for k, v in first.root.nsprefixes.items() if k != "xs")
+        real_locals = []
+        for t in first.root.getChildren("complexType"):
+            el = t.getChild("sequence").getChild("element")
+            built = [c for c in first.children if c.name == t.get("name")]
+            child = built[0].rawchildren[0].rawchildren[0] if built else None
+            real_locals.append([el.get("name"), el.get("form"),
+                                None if child is None else ("qualified" if child.form_qualified else "unqualified")])
+        meta = {"first": {"form": specs[0][0] or "unqualified", "prefixes": [list(p) for p in specs[0][1]],
+                          "locals": [{"name": n, "form": f} for n, f in specs[0][2]]},
+                "second": {"form": specs[1][0] or "unqualified", "prefixes": [list(p) for p in specs[1][1]],
+                           "locals": [{"name": n, "form": f} for n, f in specs[1][2]]}}
+        ctx.case(common.canon(meta), meta["first"]["form"] != meta["second"]["form"] or
+                 any(p[0] in [q[0] for q in specs[0][1]] for p in specs[1][1]))
+        ctx.dist["consolidate:" + ("forms differ" if meta["first"]["form"] != meta["second"]["form"] else "forms equal")] += 1
+        # the oracle: every local element is built with the form its own node gave it
+        for (form, prefixes, locals_) in specs:
+            for n, f in locals_:
+                want = f or form or "unqualified"
+                got = [x[2] for x in real_locals if x[0] == n]
+                if got != [want]:
+                    ctx.fail("a local element of a consolidated schema node is built with another form than its own "
+                             "node prescribes", dict(meta, element=n), got, [want], kind="consolidate")
+        reqs.append(dict(meta, op="consolidate"))
+        metas.append((meta, real_prefixes, [[x[0], x[2]] for x in real_locals]))
+    for ans, (meta, real_prefixes, real_locals) in zip(ctx.driver.ask(reqs), metas):
+        model = {"prefixes": sorted(ans["prefixes"]), "locals": [[x[0], x[2]] for x in ans["locals"]]} \
+            if isinstance(ans, dict) else ans
+        ctx.compare("consolidate-model-vs-suds", meta, {"prefixes": real_prefixes, "locals": real_locals}, model)
+
+
 def run(ctx):
     depsort_part(ctx)
     qualify_part(ctx)
+    consolidate_part(ctx)
     renderings_part(ctx)
     ctx.sample({"graph": [[1, [2, 3]], [2, [1]], [3, []]], "note": "D14 witness graph"})
 
